@@ -115,6 +115,31 @@ theorem close_returns_after_close_event {n : Nat} (hn : 1 ≤ n) {s s' : State} 
 theorem close_return_not_enabled_while_open {s : State} (ho : s.isOpen = true) : closeReturned s = none := by
   simp [closeReturned, ho]
 
+/-- **close_keeps_reader_handles**: `closeWriter` releases nothing a reader holds — the readers, with the segment files they
+hold open, and the disk are unchanged across the close; only `readerClose` (or the death of the process) lets go of them -/
+theorem close_keeps_reader_handles {s s' : State} (hs : step s .closeWriter = some s') :
+    s'.readers = s.readers ∧ s'.disk = s.disk := by
+  simp only [step, stepClose] at hs
+  split at hs
+  · cases hs; exact ⟨rfl, rfl⟩
+  · cases hs
+
+/-- a reader stays open (same held segment files) through every event except its own `readerClose` and a crash -/
+theorem reader_held_until_closed {s s' : State} {ev : Event} (hs : step s ev = some s') {r : Reader} (hr : r ∈ s.readers)
+    (hne : ev ≠ .readerClose r.rid) (hnc : ev ≠ .crash) : r ∈ s'.readers := by
+  cases ev <;> simp only [step, stepIntro, stepIntroMerge, stepIntroPersist, stepIntroFail, stepGrab, stepSegBegin, stepSegEnd,
+    stepMergeSegBegin, stepMergeSegEnd, stepEquiv, stepSnapBegin, stepSnapEnd, stepCommit, stepAck, stepPersistFail,
+    stepCleanupSnap, stepCleanupSeg, stepReaderOpen, stepReaderClose, stepFault, stepOpen, stepClose, reopen] at hs
+  case crash => exact absurd rfl hnc
+  case readerClose rid =>
+    split at hs
+    · cases hs
+      simp only [List.mem_filter, bne_iff_ne, ne_eq]
+      exact ⟨hr, fun h => hne (by rw [h])⟩
+    · cases hs
+  all_goals (repeat' split at hs)
+  all_goals first | (cases hs; done) | (cases hs; first | exact hr | (simp [hr]; done))
+
 /-- **second_writer_refused**: while the lock is held, OpenWriter fails at `Lock()` and changes nothing
 (no truncation, no removal, no clean-up) -/
 theorem second_writer_refused {s : State} (hl : s.lock = true) : step s .openWriter = some s := by
@@ -175,6 +200,11 @@ theorem mem_merge_releases_loaded_segment :
 /-- `closeWriter` is one event and `closeReturned` comes after it for every caller: `Writer.Close` runs `close()` through
 `s.closeOnce.Do` (a `sync.Once` field) and returns after it — concurrent callers wait for the first to finish -/
 theorem close_goes_through_once : BlugeGen.C11.closeViaOnce = true := by decide
+
+/-- the persister gives back the ONE reference it took at the grab exactly once, on the ErrClosed path and on the retry path of
+its error branch (a second `ourSnapshot.Close()` would release segment handles under a reader of that root) -/
+theorem persister_error_branch_closes_snapshot_once :
+    BlugeGen.C11.errBranchClosesClosedPath = 1 ∧ BlugeGen.C11.errBranchClosesRetryPath = 1 := by decide
 
 /-- `loadOrder`/`commitAll`: loadSnapshots walks oldest → newest, commits each loaded snapshot, skips the unloadable -/
 theorem gen_load_snapshots :
